@@ -78,8 +78,8 @@ pub fn ivec(v: &Value) -> Vec<i64> {
 }
 
 /// Run a closure, converting a panic of the code under test into None.
-pub fn guarded<T, F: FnOnce() -> T + std::panic::UnwindSafe>(f: F) -> Option<T> {
-    std::panic::catch_unwind(f).ok()
+pub fn guarded<T, F: FnOnce() -> T>(f: F) -> Option<T> {
+    std::panic::catch_unwind(std::panic::AssertUnwindSafe(f)).ok()
 }
 
 pub fn quiet_panics() {
